@@ -410,7 +410,7 @@ theorem parseDeb_render (v : V) (hw : v.wf = true) :
 theorem debian_spec (a b : V) (ha : a.wf = true) (hb : b.wf = true) :
     compareStr .debian (render a) (render b) = .ofOrd (DebSpec.specCmp a b) := by
   show debianFam.compareStr (render a) (render b) = _
-  rw [debian_laws.compare_ok (parseDeb_render a ha) (parseDeb_render b hb)]
+  rw [debian_laws.compare_ok ((debianFam_parse _).trans (parseDeb_render a ha)) ((debianFam_parse _).trans (parseDeb_render b hb))]
   congr 1
   -- well-formedness of the four parts
   have wfparts : ∀ v : V, v.wf = true →
